@@ -7,13 +7,17 @@ Proof tier (pyvc, real code; reals for floats):
   geometry.uvaxis_localise UVAxis.localise keeps the texture coordinate of every moved point: for all points P,
                            u'(P @ R + O) - u(P) == (sum_ij P_i vec_j (row_i.row_j - delta_ij)) / scale, which vanishes for
                            every rotation R (three obligations: the polynomial identity, the vanishing, the conclusion);
+  geometry.side_localise   Side.localise (called on a displacement face with three plane points and two vertices, all symbolic):
+                           the plane points and the displacement start are rotated then offset; vertex offsets, normals and
+                           offset normals are rotated only; the texture axes turn with the face; the same objects stay in place;
   template.copy.*          the copy contracts of C09 for Entity / Solid / Side / Output / EntityFixup (re-run here): a copy
                            shares no mutable state with its original - so writes to the copies cannot reach the template;
 AST obligations on collapse_one / collapse_all: every store and mutating call in collapse_one goes to the target map, the
 Instance object or a fresh copy, never to the instance file; brushes and origins use (origin, orient) of the instance;
 $variables are substituted before names are fixed up; collapse_all is bounded by recur_limit and has no other loop that can
 run forever.
-Bounded tier: generated templates x placements x fixup styles, repeated and interleaved collapses, cyclic instance graphs.
+Bounded tier: generated templates x placements x fixup styles, repeated and interleaved collapses, instance I/O connections
+to outer entities, cyclic instance graphs.
 """
 import ast
 import math
@@ -26,7 +30,7 @@ import z3
 
 from pyvc import extract, smt, vc
 from pyvc.driver import bounded
-from pyvc.symexec import Obj, Unsupported, to_z3
+from pyvc.symexec import Obj, PList, Unsupported, to_z3
 from pyvc.vc import Contract, Lemma, Registry, native
 
 from contracts.C04_rotation import _sym_matrix, _sym_vec, rows
@@ -191,7 +195,105 @@ def scale_is_kept(out, AX0):
     return out.scale == scale_of(AX0)
 
 
-PROOFS = [NAME, VLOC, UVLOC]
+SLOC = REG.add(Lemma('geometry.side_localise', PROP, [
+    {'call': 'vmf:Side.localise', 'args': ['side', 'origin', 'R']}]))
+
+
+def _uvax(h, nm):
+    return Obj('UVAxis', {'x': h.real(nm + 'x'), 'y': h.real(nm + 'y'), 'z': h.real(nm + 'z'),
+                          'offset': h.real(nm + 'off'), 'scale': h.real(nm + 'scale')}, module='vmf')
+
+
+@SLOC.setup
+def _sloc(h):
+    R, O = _sym_matrix(h, 'R'), _sym_vec(h, 'O')
+    planes = [_sym_vec(h, f'pl{i}') for i in range(3)]
+    verts = [Obj('DispVertex', {'x': i, 'y': 0, 'normal': _sym_vec(h, f'vn{i}'), 'offset': _sym_vec(h, f'vo{i}'),
+                                'offset_norm': _sym_vec(h, f'von{i}'), 'distance': h.real(f'vd{i}'),
+                                'alpha': h.real(f'va{i}')}, module='vmf') for i in range(2)]
+    power = h.int('disp_power')
+    h.assume(power > 0)
+    pos = _sym_vec(h, 'dpos')
+    side = Obj('Side', {'planes': PList(list(planes)), 'uaxis': _uvax(h, 'u'), 'vaxis': _uvax(h, 'v'),
+                        'disp_power': power, 'disp_pos': pos, '_disp_verts': PList(list(verts)),
+                        'disp_elevation': h.real('elev')}, module='vmf')
+    h.assume(side.fields['uaxis'].fields['scale'] != 0)
+    h.assume(side.fields['vaxis'].fields['scale'] != 0)
+    ghost = dict(RR=R, OO=O, ZERO=Obj('Vec', {'_x': 0, '_y': 0, '_z': 0}, module='math'),
+                 PL0=[dict(v.fields) for v in planes], POS0=dict(pos.fields),
+                 VN0=[dict(v.fields['normal'].fields) for v in verts],
+                 VO0=[dict(v.fields['offset'].fields) for v in verts],
+                 VON0=[dict(v.fields['offset_norm'].fields) for v in verts],
+                 U0=dict(side.fields['uaxis'].fields), V0=dict(side.fields['vaxis'].fields),
+                 VERTS=verts, PLANES=planes, POS=pos)
+    return {'locals': dict(side=side, origin=O, R=R), 'ghost': ghost}
+
+
+def _it(x):
+    return x.items if isinstance(x, PList) else x
+
+
+@native
+def same3(I, v, want):
+    c = [v.fields[k] for k in ('_x', '_y', '_z')]
+    return z3.And(*[to_z3(a) == to_z3(b) for a, b in zip(c, _it(want))])
+
+
+@native
+def all_moved(I, vecs, olds, RR, O):
+    return z3.And(*[same3(I, v, moved(I, o, RR, O)) for v, o in zip(_it(vecs), _it(olds))])
+
+
+@native
+def field_vecs(I, verts, name):
+    return [v.fields[name] for v in _it(verts)]
+
+
+@native
+def axis_rotated(I, ax, AX0, RR):
+    want = moved(I, {'_x': AX0['x'], '_y': AX0['y'], '_z': AX0['z']}, RR,
+                 Obj('Vec', {'_x': 0, '_y': 0, '_z': 0}, module='math'))
+    return z3.And(*[to_z3(ax.fields[k]) == to_z3(w) for k, w in zip('xyz', want)])
+
+
+@SLOC.ensures
+def plane_points_are_rotated_then_offset(PLANES, PL0, RR, OO):
+    return all_moved(PLANES, PL0, RR, OO)
+
+
+@SLOC.ensures
+def side_still_holds_the_same_plane_and_vertex_objects(side, PLANES, VERTS):
+    return (len(side.planes) == 3 and side.planes[0] is PLANES[0] and side.planes[1] is PLANES[1]
+            and side.planes[2] is PLANES[2] and len(side._disp_verts) == 2 and side._disp_verts[0] is VERTS[0]
+            and side._disp_verts[1] is VERTS[1])
+
+
+@SLOC.ensures
+def displacement_start_position_is_rotated_then_offset(side, POS, POS0, RR, OO):
+    return side.disp_pos is POS and all_moved([POS], [POS0], RR, OO)
+
+
+@SLOC.ensures
+def displacement_vertex_offsets_are_rotated_only(VERTS, VO0, RR, ZERO):
+    return all_moved(field_vecs(VERTS, 'offset'), VO0, RR, ZERO)
+
+
+@SLOC.ensures
+def displacement_vertex_normals_are_rotated_only(VERTS, VN0, RR, ZERO):
+    return all_moved(field_vecs(VERTS, 'normal'), VN0, RR, ZERO)
+
+
+@SLOC.ensures
+def displacement_vertex_offset_normals_are_rotated_only(VERTS, VON0, RR, ZERO):
+    return all_moved(field_vecs(VERTS, 'offset_norm'), VON0, RR, ZERO)
+
+
+@SLOC.ensures
+def texture_axes_are_rotated_with_the_face(side, U0, V0, RR):
+    return axis_rotated(side.uaxis, U0, RR) and axis_rotated(side.vaxis, V0, RR)
+
+
+PROOFS = [NAME, VLOC, UVLOC, SLOC]
 
 
 # ------------------------------------------------------------------------------------------------ template frame
@@ -508,6 +610,55 @@ def _subst(text):
     return text
 
 
+def _job_instance_io(seed):
+    """Connections made on the func_instance itself ('instance:relay;OnTrigger' forms) name entities of the *outer* map:
+    after collapsing they sit on the copied entity and keep their target; the template's own output targets follow the
+    fixup style."""
+    import logging
+    logging.disable(logging.CRITICAL)
+    from srctools import instancing, vmf as vmf_mod
+    from srctools.vmf import FixupValue, Output
+    rng = random.Random(seed)
+    try:
+        tmpl = vmf_mod.VMF()
+        relay = tmpl.create_ent('logic_relay', targetname='relay', origin='8 16 24', angles='0 0 0')
+        inner_targets = rng.sample(['inner_relay', '!activator', '@glob', '$name_var'], rng.choice([1, 2, 3]))
+        for t in inner_targets:
+            relay.add_out(Output('OnTrigger', t, 'Trigger'))
+        relay.add_out(Output('OnTrigger', 'proxy', 'ProxyRelay'))
+        tmpl.create_ent('logic_relay', targetname='inner_relay', origin='8 16 48', angles='0 0 0')
+        tmpl.create_ent('func_instance_io_proxy', targetname='proxy', origin='0 0 0')
+        file = instancing.InstanceFile(tmpl)
+        before = _export(tmpl)
+        target = vmf_mod.VMF()
+        for k in range(rng.choice([1, 2, 3])):
+            style = rng.choice(list(instancing.FixupStyle))
+            iname = rng.choice(['inst', 'Inst A', 'i-1']) + str(k)
+            outer = rng.sample(['outer_counter', 'relay', 'inner_relay', '@outer', 'door 1'], rng.choice([1, 2]))
+            pos, orient = _placement(rng)
+            inst = instancing.Instance(iname, 'inst.vmf', pos, orient, style,
+                                       fixup=[FixupValue(k, v, i + 1) for i, (k, v) in enumerate(FIXUPS.items())],
+                                       outputs=[Output('OnTrigger', t, 'Add', str(i), inst_out='relay')
+                                                for i, t in enumerate(outer)])
+            n_before = len(target.entities)
+            instancing.collapse_one(target, inst, file, engine_cache=_CACHE)
+            if _export(tmpl) != before:
+                return ('bad', 'the instance template changed during collapse_one with instance outputs')
+            want_name = _fixup_name(style, iname, 'relay')
+            new = [e for e in list(target.entities)[n_before:] if e['targetname'] == want_name]
+            if len(new) != 1:
+                return ('bad', f'expected one copied relay named {want_name!r} ({style.name})')
+            got = sorted((o.output, o.target, o.input, o.params) for o in new[0].outputs)
+            want = sorted([('OnTrigger', _fixup_name(style, iname, _subst(t)), 'Trigger', '') for t in inner_targets]
+                          + [('OnTrigger', t, 'Add', str(i)) for i, t in enumerate(outer)])
+            if got != want:
+                return ('bad', f'instance output connections {outer} under {style.name}: outputs of the copied relay are '
+                               f'{got}, expected {want}')
+    except Exception as e:
+        return ('bad', f'{type(e).__name__}: {str(e)[:160]}')
+    return ('ok', 1)
+
+
 def _job_same_map(seed):
     """The same template collapsed several times into one map: an overlay's side list must name faces of the brushes
     added by *its* collapse (repeated collapses differ only by placement)."""
@@ -632,7 +783,9 @@ def _sig(text):
          'prisms, and the C06 generator\'s maps) collapsed three times each (a random placement out of identity / yaw / '
          'axis-aligned / arbitrary, the identity, the same placement again) under a random fixup style and instance name; '
          'instance graphs of up to 3 files including each other (cyclic and acyclic) through collapse_all with recur_limit 6; '
-         'quick 500 templates + 300 graphs, thorough 20000 + 5000', rule='a template / graph counts once')
+         'one template collapsed 2-4 times into one map (overlay face lists); a relay + io-proxy template collapsed 1-3 times '
+         'with connections made on the instance itself (outer targets must be kept, inner ones renamed); '
+         'quick 500 templates + 120 + 120 + 300 graphs, thorough 20000 + 2000 + 2000 + 5000', rule='a template / graph counts once')
 def b_collapse(ctx):
     n = 20000 if ctx.thorough else 500
     seen = set()
@@ -653,6 +806,15 @@ def b_collapse(ctx):
                 continue
             seen.add(_sig(what))
             ctx.violation(f'same_map.seed={job}', what, ['same_map', job])
+    for job, res in ctx.pmap(_job_instance_io, [ctx.seed * 52361 + i for i in range(2000 if ctx.thorough else 120)], batch=256,
+                             job_timeout=10.0):
+        ctx.case(('instance_io', job))
+        if isinstance(res, str) or res[0] != 'ok':
+            what = res if isinstance(res, str) else res[1]
+            if _sig(what) in seen:
+                continue
+            seen.add(_sig(what))
+            ctx.violation(f'instance_io.seed={job}', what, ['instance_io', job])
     g = 5000 if ctx.thorough else 300
     for job, res in ctx.pmap(_job_graph, [ctx.seed * 2147483 + i for i in range(g)], batch=256, job_timeout=6.0):
         ctx.case(('graph', job))
@@ -665,7 +827,7 @@ def b_collapse(ctx):
 
 
 def _replay(inp):
-    res = _job_graph(inp[1]) if inp[0] == 'graph' else _job_same_map(inp[1]) if inp[0] == 'same_map' else _job_collapse(inp[0])
+    res = _job_graph(inp[1]) if inp[0] == 'graph' else _job_instance_io(inp[1]) if inp[0] == 'instance_io' else _job_same_map(inp[1]) if inp[0] == 'same_map' else _job_collapse(inp[0])
     return {'failed': isinstance(res, str) or res[0] != 'ok', 'observation': res}
 
 
@@ -705,6 +867,12 @@ MUTATIONS = [
          expect='geometry.uvaxis_localise'),
     dict(name='uvaxis_offset_uses_unrotated_axis', file='vmf.py', old="        offset = self.offset - vec.dot(origin) / self.scale",
          new="        offset = self.offset - self.vec().dot(origin) / self.scale", expect='geometry.uvaxis_localise'),
+    dict(name='side_localise_skips_offset_normals', file='vmf.py',
+         old="                vert.normal @= orient\n                vert.offset_norm @= orient\n",
+         new="                vert.normal @= orient\n", expect='geometry.side_localise'),
+    dict(name='side_localise_offsets_disp_vertex_offsets', file='vmf.py',
+         old="                vert.offset @= orient\n", new="                vert.offset.localise(origin, orient)\n",
+         expect='geometry.side_localise'),
     dict(name='template_brush_localised_in_place', file='instancing.py',
          old="        inst.brush_ids[old_brush.id] = new_brush.id\n        new_brush.localise(origin, orient)\n        # Convert across the IDs.\n        if visgroup is not False:\n            new_brush.visgroup_ids = {\n                inst.visgroup_ids[old]\n                for old in new_brush.visgroup_ids",
          new="        inst.brush_ids[old_brush.id] = new_brush.id\n        old_brush.localise(origin, orient)\n        # Convert across the IDs.\n        if visgroup is not False:\n            new_brush.visgroup_ids = {\n                inst.visgroup_ids[old]\n                for old in new_brush.visgroup_ids",
